@@ -420,6 +420,7 @@ func run(newCfg *Config, start bool) (Context, error) {
 	err = ctx.cfg.Admin.provisionAdminRouters(ctx)
 	if err != nil {
 		globalMetrics.configSuccess.Set(0)
+		ctx.cfg.cancelFunc() // clean up the provisioned modules
 		return ctx, err
 	}
 
@@ -446,6 +447,9 @@ func run(newCfg *Config, start bool) (Context, error) {
 	}()
 	if err != nil {
 		globalMetrics.configSuccess.Set(0)
+		// the config won't be used (the apps that had started
+		// were stopped above), so clean up its provisioned modules
+		ctx.cfg.cancelFunc()
 		return ctx, err
 	}
 	globalMetrics.configSuccess.Set(1)
@@ -456,7 +460,15 @@ func run(newCfg *Config, start bool) (Context, error) {
 
 	// now that the user's config is running, finish setting up anything else,
 	// such as remote admin endpoint, config loader, etc.
-	return ctx, finishSettingUp(ctx, ctx.cfg)
+	err = finishSettingUp(ctx, ctx.cfg)
+	if err != nil {
+		globalMetrics.configSuccess.Set(0)
+		// the config won't be used, so stop its apps
+		// and clean up its provisioned modules
+		unsyncedStop(ctx)
+		return ctx, err
+	}
+	return ctx, nil
 }
 
 // provisionContext creates a new context from the given configuration and provisions
